@@ -280,7 +280,8 @@ def c19(tier, seed):
     c.required_points = ["TIMEDOUT_REMOVE_HEAD", "TIMEDOUT_REMOVE_MIDDLE", "TIMEDOUT_REMOVE_TAIL", "TIMEDOUT_ALREADY_READY",
                          "TIMEDOUT_BEFORE_RELOCK"]
     c.required_counters = ["shapes", "timeouts", "signals", "broadcasts", "popwait_with_unit", "popwait_empty",
-                           "blocking_pops_on_empty_pool_returned", "deadline_in_past"]
+                           "blocking_pops_on_empty_pool_returned", "deadline_in_past",
+                           "blocked_consumers_woken_by_single_pushes"]
     return c
 
 
@@ -772,7 +773,9 @@ def c13(tier, seed):
                            "rejected_current_pool", "rejected_non_migratable", "rejected_main_scheduler_ult",
                            "thread_migrate_moved_to_other_stream", "thread_migrate_no_target_rejected", "migrate_to_xstream",
                            "migrate_to_sched", "first_request_races", "rejected_own_stream_with_multi_pool_scheduler",
-                           "callback_from_attributes_of_unit_made_migratable_later"]
+                           "callback_from_attributes_of_unit_made_migratable_later",
+                           "pending_request_then_self_yield", "pending_request_then_thread_yield_to",
+                           "pending_request_then_self_yield_to", "pending_request_then_thread_yield"]
     c.required_points = ["MIGRATE_BEFORE_CLEAR", "MIGRATE_AFTER_TARGET_SET", "SCHEDULE_MIGRATED"]
     return c
 
